@@ -28,6 +28,56 @@ func fileScope(c *Ctx, files ...string) func(fn string) bool {
 	}
 }
 
+// family restricts a whole-program rule to the obligations that lie in functions reachable (call graph, without
+// `go` edges) from the command handlers defined in the given files: the check of a command family does not answer for
+// the other families. Obligations whose key does not name a function are kept. minCount replaces the rule's floor.
+func family(minCount int, files []string, rule func(*Ctx)) func(*Ctx) {
+	return func(c *Ctx) {
+		inFile := fileScope(c, files...)
+		reach := map[string]bool{}
+		hs, err := c.M.Handlers()
+		if err != nil {
+			rule(c)
+			return
+		}
+		for _, h := range hs {
+			if !inFile(fnName(h)) {
+				continue
+			}
+			for f := range c.M.Reach(h) {
+				reach[fnName(f)] = true
+			}
+		}
+		tmp := &Sink{prop: c.S.prop, config: c.S.config, rules: map[string]*RuleInfo{}, notes: c.S.notes}
+		rule(&Ctx{Prog: c.Prog, S: tmp, M: c.M})
+		for _, id := range tmp.order {
+			r := tmp.rules[id]
+			fl := r.Floor
+			if fl > minCount {
+				fl = minCount
+			}
+			c.S.Rule(id, r.Text+" [restricted to the functions reachable from the handlers in "+strings.Join(files, ", ")+"]", fl)
+		}
+		for _, o := range tmp.obs {
+			rest := strings.TrimPrefix(o.Key, o.Rule+":")
+			fn := rest
+			if i := strings.Index(rest, ":"); i >= 0 {
+				fn = rest[:i]
+			}
+			known := c.Fn(fn) != nil
+			if !known {
+				if i := strings.Index(fn, "$"); i > 0 {
+					known = c.Fn(fn[:i]) != nil
+				}
+			}
+			if known && !reach[fn] {
+				continue
+			}
+			c.S.obs = append(c.S.obs, o)
+		}
+	}
+}
+
 func a7Files(floor int, files ...string) func(*Ctx) {
 	return func(c *Ctx) { ruleA7(fileScope(c, files...), floor)(c) }
 }
@@ -49,23 +99,23 @@ func init() {
 	reg("C02",
 		"Structural clauses of the string/counter family: command identity from the normalised token (R-cmdident), the signed-overflow idiom compares with the other addend (R-overflow-idiom), MSETNX checks before it writes (R-C02-msetnx-phase), every argument the handlers read is produced by the grammar with that type (A7, redisKeys.go), the string commands flagged readonly reach no mutation site (A5-readonly).",
 		"reply values, clamping arithmetic of GETRANGE/SETRANGE, LCS output, float formatting, TTL classes (keep/reset/from-argument)",
-		nil, ruleCmdIdent, ruleOverflowIdiom, ruleMsetnxPhase, a7Files(20, "redisKeys.go"), ruleReadonly(nil))
+		nil, ruleCmdIdent, ruleOverflowIdiom, ruleMsetnxPhase, a7Files(20, "redisKeys.go"), ruleReadonly(nil), family(3, []string{"redisKeys.go"}, ruleA4Inert))
 	reg("C03",
 		"Structural clauses of the list family: no push onto a list that may just have been detached from the keyspace (R-C03-detached: LMOVE with source = destination), emptiness test after every unlink (A4-empty), an element is inserted after every creation of an empty list (A4-nonempty-create), list constructors set the complete link/count field set (R-ctor-agree), typed-accessor results are nil-tested before use (R-typed-nil), argument agreement with the grammar (A7, redisList.go).",
 		"order preservation, index normalisation, LPOS/LREM/LINSERT results — runtime values; no shape analysis of the doubly linked list",
-		nil, ruleDetached, ruleA4Empty, ruleNonEmptyCreate, ruleCtorAgree, ruleTypedNil, a7Files(20, "redisList.go"))
+		nil, ruleDetached, ruleListShape, ruleListUnlinkedUse, family(3, []string{"redisList.go"}, ruleA4Empty), family(1, []string{"redisList.go"}, ruleNonEmptyCreate), ruleCtorAgree, family(3, []string{"redisList.go"}, ruleTypedNil), family(3, []string{"redisList.go"}, ruleA4Inert), a7Files(20, "redisList.go"))
 	reg("C04",
 		"Structural clauses of the hash family: sibling handlers' distinguishing parameter is used by the shared helper (R-sibling-param: HSETNX), overflow idiom (R-overflow-idiom: HINCRBY), emptiness test after field removal (A4-empty), insertion after creation (A4-nonempty-create), nil-tested accessors (R-typed-nil), argument agreement (A7, redisHashTable.go).",
 		"field/value contents, HRANDFIELD distribution, float formatting, dictionary growth/shrink arithmetic",
-		nil, ruleSiblingParam, ruleOverflowIdiom, ruleA4Empty, ruleNonEmptyCreate, ruleTypedNil, a7Files(20, "redisHashTable.go"))
+		nil, ruleSiblingParam, ruleOverflowIdiom, family(1, []string{"redisHashTable.go"}, ruleA4Empty), family(1, []string{"redisHashTable.go"}, ruleNonEmptyCreate), family(3, []string{"redisHashTable.go"}, ruleTypedNil), family(3, []string{"redisHashTable.go"}, ruleA4Inert), a7Files(20, "redisHashTable.go"))
 	reg("C05",
 		"Structural clauses of the set family: commands flagged readonly (SINTER/SUNION/SDIFF/SMEMBERS/…) reach no mutation site of database state — the algebra workers never modify an operand, they work on fresh dictionaries (A5-readonly; write commands reach one); emptiness test after member removal (A4-empty), insertion after creation (A4-nonempty-create), nil-tested accessors, argument agreement (A7, redisSet.go).",
 		"that the computed set equals the mathematical result; that a STORE of an empty result deletes the destination",
-		nil, ruleReadonly(nil), ruleA4Empty, ruleNonEmptyCreate, ruleTypedNil, a7Files(15, "redisSet.go"))
+		nil, ruleReadonly(nil), family(2, []string{"redisSet.go"}, ruleA4Empty), family(1, []string{"redisSet.go"}, ruleNonEmptyCreate), family(3, []string{"redisSet.go"}, ruleTypedNil), family(3, []string{"redisSet.go"}, ruleA4Inert), a7Files(15, "redisSet.go"))
 	reg("C06",
-		"Structural necessary conditions of keyspace discipline, decided for every site of the current source: (A4-empty) after every site that can shrink a list/hash/set every path to the end of the critical section tests the aggregate's count against zero and removes the key on the empty side; (A4-nonempty-create) an element is inserted after every creation of an empty aggregate; (R-payload-agree) every type assertion on a key's payload is dominated by a test of the key-type flag and asserts the Go type producers store for that flag; (R-ctor-agree) list constructors (COPY, load) set the full field set; (R-typed-nil) typed-accessor results are nil-tested before dereference (WRONGTYPE before any use); (A7, redisCore.go) options of the keyspace commands are producible by the grammar.",
+		"Structural necessary conditions of keyspace discipline, decided for every site of the current source: (A4-empty) after every site that can shrink a list/hash/set every path to the end of the critical section tests the aggregate's count against zero and removes the key on the empty side; (A4-nonempty-create) an element is inserted after every creation of an empty aggregate; (R-payload-agree) every type assertion on a key's payload is dominated by a test of the key-type flag and asserts the Go type producers store for that flag; (R-ctor-agree) list constructors (COPY, load) set the full field set; (R-typed-nil) typed-accessor results are nil-tested before dereference (WRONGTYPE before any use); (A7, redisCore.go) options of the keyspace commands are producible by the grammar; (A6) the keyspace commands (EXISTS, TYPE, RENAME(NX), COPY, KEYS, RANDOMKEY, DBSIZE ...) see the keyspace only through an expiry filter, so an expired key is absent for them as the property demands.",
 		"glob matching, SORT ordering, DBSIZE/KEYS values, deep-copy equality of COPY/RENAME as values",
-		nil, ruleA4Empty, ruleNonEmptyCreate, rulePayloadAgree, ruleCtorAgree, ruleTypedNil, a7Files(20, "redisCore.go"))
+		nil, ruleA4Empty, ruleNonEmptyCreate, rulePayloadAgree, ruleCtorAgree, ruleTypedNil, ruleA6, ruleA4Inert, a7Files(20, "redisCore.go"))
 	reg("C07",
 		"A6 (who-may-read the keyspace raw): every read of a database's keyspace dictionary goes through an expiry filter (tests isExpired, yields (nil,false) on the expired edge), or is an iteration that tests isExpired per element, or is the snapshot writer (identified as the function that drives the gob encoder). This is exactly the universally quantified 'every command treats an expired key as missing' clause.",
 		"deadline arithmetic, TTL/PTTL/EXPIRETIME values, NX/XX/GT/LT comparisons, which commands keep/reset/set the deadline, behaviour at the deadline instant (time is a runtime quantity)",
